@@ -318,6 +318,12 @@ func (db *DB) OpenTransaction() (*Transaction, error) {
 		if _, err := db.rotateMem(0, true); err != nil {
 			return nil, err
 		}
+	} else if err := db.compTriggerWait(db.mcompCmdC); err != nil {
+		// The write buffer is empty but a frozen one may still be waiting to
+		// be flushed: the transaction must not record a sequence number (nor
+		// add level-0 tables) ahead of entries that are only in the journal.
+		<-db.writeLockC
+		return nil, err
 	}
 
 	// Wait compaction when certain threshold reached.
